@@ -37,6 +37,8 @@ type h5DelayWorld struct {
 	mu   sync.Mutex
 	wire []string // requests and indications in the order they left the client, "t=<ms> <what>"
 	rx   []h5Rx   // reactions to CreatePermission transactions, in order of first arrival
+	rxConnect []h5Rx // reactions to Connect transactions (none: no answer)
+	cidN int
 	seen map[[stun.TransactionIDSize]byte]bool
 	t0   time.Time
 	nn   int
@@ -155,6 +157,28 @@ func newH5DelayWorld(refresh time.Duration) (*h5DelayWorld, error) {
 				send(0, stun.NewType(stun.MethodRefresh, stun.ClassSuccessResponse), &proto.Lifetime{Duration: lt.Duration})
 			case stun.MethodConnect:
 				w.log("connect")
+				w.mu.Lock()
+				var rx *h5Rx
+				if len(w.rxConnect) > 0 {
+					r := w.rxConnect[0]
+					rx = &r
+					w.rxConnect = w.rxConnect[1:]
+				}
+				w.cidN++
+				cid := w.cidN
+				w.mu.Unlock()
+				switch {
+				case rx == nil: // silence
+				case rx.code == 0:
+					send(rx.delay, stun.NewType(stun.MethodConnect, stun.ClassSuccessResponse), proto.ConnectionID(cid))
+				default:
+					attrs := []stun.Setter{stun.NewType(stun.MethodConnect, stun.ClassErrorResponse), &stun.ErrorCodeAttribute{Code: stun.ErrorCode(rx.code)}}
+					if rx.code == 438 {
+						w.nn++
+						attrs = append(attrs, stun.NewNonce(fmt.Sprintf("nonce%d", w.nn)), stun.NewRealm("pion.ly"))
+					}
+					send(rx.delay, attrs...)
+				}
 			}
 		}
 	}()
